@@ -30,6 +30,15 @@ func (ts *TermStore) lookupUF(name string, args ...*Term) *Term {
 func (ex *Exec) axioms(cone []*Term) []*Term {
 	var out []*Term
 	var fmts, joins []*Term
+	// program literals this query mentions (plus the empty string)
+	coneLits := []string{""}
+	for _, t := range cone {
+		if t.IsConst() && t.sort == SInt {
+			if l, ok := Lits.byCode[t.ival.Int64()]; ok && l != "" {
+				coneLits = append(coneLits, l)
+			}
+		}
+	}
 	for _, t := range cone {
 		switch t.op {
 		case "uf:trim":
@@ -37,6 +46,12 @@ func (ex *Exec) axioms(cone []*Term) []*Term {
 			out = append(out, ILe(IntC(0), t), Implies(Eq(x, IntC(0)), Eq(t, IntC(0))))
 			if x.op != "uf:trim" {
 				out = append(out, Eq(UF("trim", SInt, t), t))
+			}
+			// a free text that happens to equal a program literal trims like that literal
+			if x.op == "var" {
+				for _, l := range coneLits {
+					out = append(out, Implies(Eq(x, IntC(Lits.Code(l))), Eq(t, IntC(Lits.Code(strings.TrimSpace(l))))))
+				}
 			}
 		case "uf:strlen":
 			// bound: atom-mode strings are at most 1 MiB long (stated bound; the log format itself caps lines at 10 MiB)
